@@ -15,12 +15,20 @@ CFG = {
     "exhaustive": {"quick": False, "thorough": False},
     "explanation": "theorems (encryption layer, arbitrary inner bytes, any reads/seeks): every byte returned at position p comes from a ciphertext "
                    "that verified under counter p / CHUNK, hence equals the original byte or exhibits a forgery; failed loads are sticky; "
-                   "unaltered streams open. oracle (exactly the property): names listed are original names, every byte returned for a file "
+                   "unaltered streams open. ARCHIVE LEVEL (EncAuthStream/ReaderAuthSim/ReaderAuth/ReaderAuthRun): the layer theorem is packaged as "
+                   "AgreesOn S I plain E (every Ok read is original data at the claimed position; E = the end the stream claims); over any such stream and "
+                   "the block stream of any successful ArchiveWriter run: if the claimed end is not before the true end, ropen yields the ORIGINAL footer, "
+                   "list_files = the original names, get_file announces the original size, every successful read delivers the NEXT original bytes, "
+                   "read_all a PREFIX of the content, get_hash the original hash; without that hypothesis every listed name and every delivered byte "
+                   "string is a SUBSTRING of the original plaintext (..._partial) and C03_D17_refuted exhibits a truncated wire on which the model lists "
+                   "a name never written. oracle (exactly the property): names listed are original names, every byte returned for a file "
                    "equals the original byte at that position, no panic. Known finding D17 is generated deliberately.",
     "assumptions": [
         "no unforgeability assumption: conclusions are `original bytes or Forgery` (a ciphertext accepted under counter i that the writer did not produce for chunk i)",
         "fewer than 2^32 chunks (current_chunk_number: u32); beyond, the model reports Crash 419",
-        "archive-level statement (names come from an authenticated footer) is NOT proved: D17 shows it is false as stated; covered by the oracle only",
+        "archive-level statements need `len plain <= enc_end w` (the length of the altered wire still maps to at least the original plaintext length: no whole trailing chunks dropped); nothing authenticates it (D17): without it only the substring statement is proved and C03_D17_refuted shows the names statement false of the model",
+        "archive-level statements are under `~ Forgery` (classically the same as the layer theorem's `\\/ Forgery`); no toy cipher with fixed-size byte tags satisfies it for all counters, so its non-vacuity is shown by computed instances, not by a proved instance",
+        "after a failed read of a BlocksToFileReader nothing is claimed for further reads of THAT file reader (the archive reader itself stays usable: C03_archive_reader_keeps)",
         "splice from an archive with the SAME key and nonce is not generated: ArchiveWriterConfig offers no way to choose them (EncryptionConfig::verif_new exists at layer level only); by construction such a chunk verifies (it is the Forgery disjunct of the theorem)",
     ],
 }
